@@ -29,11 +29,11 @@ PROPS = {
     },
     "C18": {
         "verus": ["encoding_lemmas", ("verify_base", BASE_VERIFY_FNS + ["verify_label", "NodeLabel.new"]),
-                  ("verify_history", ["verify_single_update_proof"]), ("verify_lookup", ["lookup_verify"])],
+                  ("verify_history", ["verify_single_update_proof"]), ("verify_lookup", ["lookup_verify"]), "vrf_labels"],
         "kani": ["c18"],
         "search": True,
-        "search_pid": "C07",
-        "scope": "partial (everything except the curve arithmetic): every acceptance path of the client verifiers binds the claimed node label through verify_label to the (label, freshness, version) "
+        "scope": "partial (everything except the curve arithmetic): the node labels a publish places in the tree - VRFKeyStorage::get_node_labels, the parallel branch (tasks in a JoinSet whose "
+                 "join_next hands results out in COMPLETION order) - pair every input tuple with the VRF label of that very tuple (trait default method verified as a free function over an arbitrary implementor, R-SELF); every acceptance path of the client verifiers binds the claimed node label through verify_label to the (label, freshness, version) "
                  "it is accepted for - verify_existence / _with_val / _with_commitment / verify_nonexistence accept only with label_ok for exactly their arguments, and lookup_verify / "
                  "verify_single_update_proof (tombstoned entries under AllowMissingValues included) accept only through them; verify_label accepts iff key and proof parse, the VRF accepts the proof for the hash input of (label, freshness, version) "
                  "and the claimed node label equals the truncated VRF output with length 256 (Verus, unbounded); the hash input is be64(|label|) || label || [freshness] || be64(version) "
@@ -41,6 +41,7 @@ PROPS = {
                  "(Verus lemma, unbounded); leaf-hash and commitment-nonce pre-images (nonce contains the key-derived commitment key); output truncation = first 32 bytes; the key and proof parsers refuse every byte string of the wrong length (Kani, curve operations stubbed). "
                  "VRF completeness, uniqueness and key separation are cryptographic assumptions.",
         "trusted": ["everything in ecvrf_impl.rs (prove/verify/evaluate, proof (de)serialisation) and the hash functions themselves (blake3)",
+                    "tokio JoinSet model: join_next yields the value of SOME spawned task that completed, in no particular order; R-SPAWN / R-WHILELET / R-SELF applied to get_node_labels; termination of its loops not proved",
                     "u64::to_be_bytes is the big-endian byte string (be64)"],
         "assumed": [],
     },
